@@ -19,6 +19,7 @@ type v15g struct {
 	all     []uint32 // every stream id used so far
 	handler []uint32 // streams whose user handler probably runs (approximate)
 	pingN   int
+	hadCL   bool // the last headers() call added content-length fields
 }
 
 func (g *v15g) fresh() uint32 {
@@ -237,6 +238,41 @@ func (g *v15g) connSpecific(fs []v15Field) []v15Field {
 	}
 }
 
+// contentLength adds content-length field(s): well-formed for the END_STREAM flag the request gets, or
+// malformed (not a number, conflicting values, non-zero with END_STREAM). The server treats both alike
+// (class ok); the oracle does not.
+func (g *v15g) contentLength(fs []v15Field, es int) []v15Field {
+	r := g.r
+	good := "0"
+	add := func(vs ...string) []v15Field {
+		for _, v := range vs {
+			fs = append(fs, v15Field{"content-length", v})
+		}
+		return fs
+	}
+	switch r.Intn(8) {
+	case 0:
+		return add(good)
+	case 1:
+		return add(good, good)
+	case 2:
+		return add([]string{"abc", "+0", "-0", "", "0x0", "0 ", "1e0", "٣"}[r.Intn(8)])
+	case 3:
+		return add("0", "1")
+	case 4:
+		return add("0", "abc")
+	case 5:
+		if es == 1 {
+			return add([]string{"5", "1", "007"}[r.Intn(3)])
+		}
+		return add(good)
+	case 6:
+		return add("00")
+	default:
+		return add("-1")
+	}
+}
+
 // headers builds an H token of the given kind on stream sid.
 func (g *v15g) headers(sid uint32, kind string) string {
 	fs := g.baseFields(sid)
@@ -257,6 +293,11 @@ func (g *v15g) headers(sid uint32, kind string) string {
 	es := 1
 	if g.r.Chance(1, 3) {
 		es = 0
+	}
+	g.hadCL = false
+	if g.r.Chance(1, 7) {
+		fs = g.contentLength(fs, es)
+		g.hadCL = true
 	}
 	ncont := 0
 	if g.r.Chance(1, 8) {
@@ -315,7 +356,9 @@ func (g *v15g) emit(s string) { g.ops = append(g.ops, s) }
 func (g *v15g) openOne(kind string) string {
 	sid := g.fresh()
 	tok := g.headers(sid, kind)
-	if kind != "mw" || g.r.Chance(1, 10) {
+	// streams with a declared content-length stay out of the DATA pool: the accounting model does
+	// not track declared lengths (DATA beyond the declaration is a stream error)
+	if (kind != "mw" || g.r.Chance(1, 10)) && !g.hadCL {
 		g.all = append(g.all, sid)
 	}
 	if kind == "ok" || kind == "cs" {
